@@ -556,4 +556,23 @@ def peel_ty(t):
     return t.replace("&", "").strip()
 
 
-RULES = [R1_who_may_write, R2_locked_row, R3_every_response_once, R4_header, R5_no_response_edits, R6_lock_order]
+def R7_sink_format(ctx):
+    """C19.R7 the sink writes rows in the format the header was written in"""
+    F = ctx.F
+    ctx.rule("C19.R7", "ResponseOutputPolicy::build (File): the format stored in the sink — which renders every row and the delimiter — is the configured format itself, the same value that WriteMode::open_file writes the header from; a re-ordered or re-flagged copy makes rows and header disagree", floor=3)
+    b = F.need("routee_compass::app::compass::response::response_output_policy::ResponseOutputPolicy::build")
+    tm = Terms(b)
+    FMT = ("field", ("variant", ("arg", 1), "File"), "format")
+    ofs = [c for c in b.calls() if (c.callee or "").endswith("WriteMode::open_file")]
+    sinks = [x for x in subterms(clean(tm.return_term())) if x[0] == "agg" and x[2] == "File" and "ResponseSink" in x[1]]
+    if len(ofs) != 1 or len(sinks) != 1:
+        raise AnchorMissing("open_file call / ResponseSink::File in ResponseOutputPolicy::build")
+    hdr = clean(tm.operand(ofs[0].args[2], ofs[0].bb))
+    f = dict(sinks[0][3])
+    ctx.check(hdr == FMT, "header-format=configured", "the header is not written from the configured format: %s" % short(hdr)[:100], ofs[0].where(), detail="open_file(.., &format)")
+    ctx.check(f.get("format") == FMT, "sink-format=configured", "the sink renders rows with %s, not with the configured format the header was written from" % short(f.get("format"))[:100], b.where(), detail="format: format.clone()")
+    dl = f.get("delimiter")
+    ctx.check(dl is not None and dl[0] == "call" and dl[1].endswith("ResponseOutputFormat::delimiter") and dl[2][0] == FMT, "delimiter-of-configured-format", "the row delimiter is not the configured format's own", b.where(), detail="format.delimiter()")
+
+
+RULES = [R1_who_may_write, R2_locked_row, R3_every_response_once, R4_header, R5_no_response_edits, R6_lock_order, R7_sink_format]
